@@ -28,6 +28,8 @@ structure TaskOracle where
   f : Pos → Int
   /-- the `k`-th oracle step of the task when it is an update: population and best agent before ↦ after -/
   upd : Nat → List Ag × Ag → List Ag × Ag
+  /-- the objective calls that update makes itself (trial evaluations), in order -/
+  updEv : Nat → List Ag × Ag → List (Pos × Int) := fun _ _ => []
   /-- … when it is a call of the pre-evaluation hook -/
   hook : Nat → List Ag × Ag → List Ag × Ag
   /-- … when it is a post step (`AIWPSO._compute_success`, `WCA._raining_process` …) -/
@@ -43,6 +45,8 @@ structure TaskSt where
   best : Ag
   /-- objective calls made by sweeps, oldest first -/
   evals : List (Pos × Int)
+  /-- objective calls made inside updates (trials), oldest first -/
+  trialEvals : List (Pos × Int) := []
   /-- the positions every hook call left behind, oldest first -/
   hookOut : List (List Pos)
   /-- the arguments of every sweep, in call order, oldest first -/
@@ -76,7 +80,7 @@ def record (a : Ag) : Pos × Int := (a.pos, a.fit)
 def TaskProg.execEv (p : TaskProg) (lbs ubs : List Int) (o : TaskOracle) (s : TaskSt) : SEv → TaskSt
   | .update =>
     let r := o.upd s.k (s.pop, s.best)
-    { s with pop := r.1, best := r.2, k := s.k + 1 }
+    { s with pop := r.1, best := r.2, k := s.k + 1, trialEvals := s.trialEvals ++ o.updEv s.k (s.pop, s.best) }
   | .clipAll => { s with pop := s.pop.map fun a => { a with pos := p.clip.runPos lbs ubs a.pos } }
   | .hook =>
     let r := o.hook s.k (s.pop, s.best)
